@@ -15,6 +15,7 @@ import (
 	"math/rand"
 	"net/http"
 	"net/http/httptest"
+	"net/url"
 	"strings"
 	"sync"
 
@@ -65,6 +66,7 @@ type Cred struct {
 
 // Case is one request construction plus the server-side options of the probes.
 type Case struct {
+	NoWarm         bool   `json:"no_warm_call,omitempty"` // skip the earlier call on the same authenticator instance
 	Method         string `json:"method"`
 	Default        []Cred `json:"default,omitempty"`         // Runtime.DefaultAuthentication
 	DefaultCompose bool   `json:"default_compose,omitempty"` // wrap in client.Compose even when single
@@ -419,6 +421,24 @@ func runProbe(c *Case, p probe, req *http.Request) (o observation) {
 	if p.kind == "bearer" || c.Scoped {
 		param = &security.ScopedAuthRequest{Request: req, RequiredScopes: c.Scopes}
 	}
+	// an authenticator is built once and serves many requests: an earlier request with OTHER credentials
+	// (of every kind and placement) goes through the same instance first; nothing of it may show up below
+	if !c.NoWarm {
+		warm := httptest.NewRequest(http.MethodPost, "/warm?access_token=warm-query-token&"+url.QueryEscape(spellKeyName(c, p))+"=warm-query-key", strings.NewReader("access_token=warm-form-token"))
+		warm.Header.Set("Content-Type", "application/x-www-form-urlencoded")
+		if p.kind == "basic" {
+			warm.SetBasicAuth("warm-user", "warm:pass")
+		} else {
+			warm.Header.Set("Authorization", "Bearer warm-header-token")
+		}
+		warm.Header.Set(spellKeyName(c, p), "warm-header-key")
+		var wparam interface{} = warm
+		if p.kind == "bearer" || c.Scoped {
+			wparam = &security.ScopedAuthRequest{Request: warm, RequiredScopes: []string{"warm-scope"}}
+		}
+		_, _ = mon.Catch(func() { _, _, _ = auth.Authenticate(wparam) })
+		o.calls, o.cbPrincipal, o.cbErr = nil, nil, nil
+	}
 	pv, st := mon.Catch(func() { o.applies, o.principal, o.err = auth.Authenticate(param) })
 	if pv != nil {
 		o.panicked = fmt.Sprintf("%v\n%s", pv, st)
@@ -431,6 +451,13 @@ func runProbe(c *Case, p probe, req *http.Request) (o observation) {
 		o.ctxMarker = "foreign"
 	}
 	return o
+}
+
+func spellKeyName(c *Case, p probe) string {
+	if p.kind == "apikey" {
+		return spellKey(c, p)
+	}
+	return "X-Unused-Warm-Key"
 }
 
 func probeAll(c *Case, fresh func() (*http.Request, error)) ([]observation, error) {
